@@ -173,4 +173,15 @@ CLAIMS = {
           'Six recorded findings (cursor stuck after the first interchange / in an unclosed loop / on a closed set / on envelope lines, stale element node for too-many-elements). Trusted: TLC, lib/c19_run.py.',
   'technique': 'TLA+ model checking (TLC) of the error-tree cursor and report model + realisation of emitted behaviours as documents + TLC trace validation of recorded runs (drift reported separately)',
  },
+ 'C10': {
+  'text': 'TLC explores TreeEdit.tla (forest with explicit parent links over a map fragment exported from the real map; one action per API call; invariants well-formed / map-ordered / agreement of '
+          'exists-count-first-select; action properties set-then-get and nothing else, delete exactly one, insertion order, copy-fresh, serialisation reflects the edit): all histories of <=2 (thorough: 3 on '
+          'the 834 tree) mutating calls from small real 837P/835/834 trees and random 12/24-call histories on the suite documents; every emitted history is replayed on a tree from X12ContextReader comparing '
+          'return value / exception class, projected tree (identity, parent, children, values) and iterate_segments() after each call; all read-only calls are observed on every distinct forest reached, and '
+          'seeded random 30/40-call histories plus the README / test-suite usage are recorded and validated event by event by T_TreeEdit (TreeDef: per call the set of acceptable results).',
+  'note': 'Alphabets of 15-25 curated paths on the small trees, <=120 sampled paths on the big ones; invalid paths, "../" from segment nodes and calls on deleted nodes only constrain "nothing changes" and the '
+          'agreement of the four query methods; where "first loop instance only" and "first match overall" differ, get_value/set_value may follow either. Trusted: TLC, PathDef (C17), lib/c10_world.py. '
+          'Four defects found and repaired.',
+  'technique': 'TLA+ model checking (TLC BFS + simulation) + replay of TLC histories on real trees + TLC trace validation of recorded executions',
+ },
 }
